@@ -336,6 +336,15 @@ pub fn run(ctx: &Ctx) -> Outcome {
         let cubic = rng.chance(0.3);
         let b2 = if cubic { rng.range(a + len * 0.3, a + len * 0.9) } else { 0. };
         let u3 = u0 + run * rng.range(0.5, 0.9);
+        // or an almost straight cubic: control points a third and two thirds of the way along the chord, a few
+        // pixels to its side (a bulge of a few pixels over thousands of pixels of length)
+        let shallow = rng.chance(0.25);
+        let (cubic, b, b2, u1, u3) = if shallow {
+            let d = |rng: &mut Rng| rng.range(2., 14.) * if rng.chance(0.7) { 1. } else { -1. };
+            (true, a + len / 3., a + 2. * len / 3., u0 + run / 3. + d(&mut rng), u0 + 2. * run / 3. + d(&mut rng))
+        } else {
+            (cubic, b, b2, u1, u3)
+        };
         // long axis position -> parameter at the middle of the surface (bisection on the monotonic part)
         let along = |t: f64| -> f64 {
             if cubic {
@@ -411,6 +420,9 @@ pub fn run(ctx: &Ctx) -> Outcome {
         let res = check_fill_subs(&cov, w, h, &subs, path.winding == Winding::EvenOdd, 1.0);
         st.add("long_curve_px_inside_asserted", res.inside);
         st.add("long_curve_px_outside_asserted", res.outside);
+        if shallow {
+            st.add("long_almost_straight_cubics", 1);
+        }
         st.add(if over / (len + 2. * over) < 1. / 256. { "long_curves_turning_within_1_256th_of_an_end" } else { "long_curves_turning_further_in" }, 1);
         let mut co = CaseOut::default();
         co.hash = crate::prng::hash_str(&format!("{:?}{}{}", path, aa, as_clip));
